@@ -1,5 +1,5 @@
 (* Props_C14.v — C14: round-robin probing: every active member is probed within 2n-1 rounds. *)
-From Foca Require Import Laws MembersM L_Members L_MembersInv L_RoundRobin Concrete.
+From Foca Require Import Laws MembersM ProbeM FocaM L_Members L_MembersInv L_RoundRobin L_RoundSuspect L_RoundPing Concrete.
 
 Section C14.
 Context {Id Addr : Type} {IO : IdOps Id Addr}.
@@ -23,6 +23,48 @@ Proof. exact (next_sliding_window rnd ms n x j). Qed.
 
 End C14.
 
+Section C14call.
+Context {Id Addr : Type} {IO : IdOps Id Addr} {CO : CodecOps Id} {HO : HandlerOps Id} {IL : IdLaws IO}.
+
+(* THE ROUND AS ONE CALL.  A live ProbeRandomMember timer - whatever the state the previous round was left
+   in: complete, or incomplete (the recovery path that reports IncompleteProbeCycle) - sends exactly one
+   datagram, a Ping, to the member Members::next yields on the list left by the suspicion part of the
+   round (round_members: the failed target, if any, marked Suspect), and nothing if next yields none;
+   calls aborted by an Encode error or a panic excepted.  With C14_active_only the pinged member is an
+   active record of that list - never a Down one; with C14_window the rotation covers every active
+   member in 2n-1 rounds. *)
+Theorem C14_round_terms (es : list (effect Id)) (e : effect Id) (c : option (member Id)) (f : @foca Id Addr HO) :
+  dsts (@nil (effect Id)) = []
+  /\ dsts (e :: es) = (match e with Send d _ => d :: dsts es | _ => dsts es end)
+  /\ expect c = (match c with Some m => [m_id m] | None => [] end)
+  /\ (is_ping_to e <-> match e with
+                       | Send d b => exists id inc n rest, b = enc_hdr (mkHeader id inc d (Ping n)) ++ rest
+                       | _ => True
+                       end)
+  /\ round_members f =
+      (let prb1 := if negb (probe_validate (prb f)) then probe_clear (prb f) else prb f in
+       match snd (probe_take_failed prb1) with
+       | Some fm =>
+           match apply_existing_if (mems f) (mkMember (m_id fm) (m_inc fm) Suspect) (fun _ => true) with
+           | Some (ms, _) => ms
+           | None => mems f
+           end
+       | None => mems f
+       end).
+Proof. repeat split; try reflexivity; auto. destruct e; reflexivity. Qed.
+
+Theorem C14_round_pings_next (rnd : oracle) (f : @foca Id Addr HO) :
+  conn f = Connected ->
+  let '(f', es, r, _) := step rnd f (ITimer (TProbeRandomMember (token f))) in
+  match r with
+  | Failed EEncode => True
+  | Panicked _ => True
+  | _ => dsts es = expect (snd (fst (members_next rnd (round_members f) 0))) /\ Forall is_ping_to es
+  end.
+Proof. exact (step_round_pings_next rnd f). Qed.
+
+End C14call.
+
 (* the bound is tight: a layout and shuffle where a member is missing from a window of 2n-2 *)
 Definition c14_a := mkMember (mkCid 1 0 0 0) 0 Alive.
 Definition c14_b := mkMember (mkCid 2 0 0 0) 0 Alive.
@@ -43,3 +85,21 @@ Proof. vm_compute. split; reflexivity. Qed.
 Print Assumptions C14_active_only.
 Print Assumptions C14_window.
 Print Assumptions C14_tight.
+(* non-vacuity: a connected instance with two members; its live round pings exactly one of them, the
+   member Members::next yields *)
+Definition ex14_cfg : config := mkConfig 1500000000 500000000 3 10 3000000000 86400000000000 1400 false None None None.
+Definition ex14_o : oracle := fun _ r => match r with RShuffle _ => [0; 1; 2; 3] | RChoose _ => [0] | RRange _ => [0] | RTie _ _ => [] end.
+Definition ex14_f0 : @foca cid N cid_handler := foca_init (mkCid 1 0 0 0) ex14_cfg (mkChst 0 255 []).
+Definition ex14_f : @foca cid N cid_handler :=
+  fst (fst (fst (step ex14_o ex14_f0 (IApplyMany [mkMember (mkCid 2 0 0 0) 0 Alive; mkMember (mkCid 3 0 0 0) 0 Alive] false)))).
+Example C14_round_example :
+  conn ex14_f = Connected
+  /\ dsts (snd (fst (fst (step ex14_o ex14_f (ITimer (TProbeRandomMember (token ex14_f))))))) =
+     expect (snd (fst (members_next ex14_o (round_members ex14_f) 0)))
+  /\ length (dsts (snd (fst (fst (step ex14_o ex14_f (ITimer (TProbeRandomMember (token ex14_f)))))))) = 1%nat
+  /\ snd (fst (step ex14_o ex14_f (ITimer (TProbeRandomMember (token ex14_f))))) = Done.
+Proof. vm_compute. auto. Qed.
+
+Print Assumptions C14_round_terms.
+Print Assumptions C14_round_pings_next.
+Print Assumptions C14_round_example.
